@@ -126,7 +126,7 @@ func randVal(r *lib.Rng) val {
 func main() {
 	a := lib.ParseArgs()
 	out := lib.NewOut(a.Out)
-	out.Rule = "boundary grid: all ordered pairs x 6 comparison + 4 arithmetic operators (exhaustive), then random 64-bit patterns biased to powers of two and small magnitudes; a case is non-trivial when the two operands differ or are of different kinds; distinct = distinct (op,a,b) inputs"
+	out.Rule = "boundary grid: all ordered pairs x 6 comparison + 4 arithmetic operators + mod (exhaustive), then random 64-bit patterns biased to powers of two and small magnitudes; a case is non-trivial when the two operands differ or are of different kinds; distinct = distinct (op,a,b) inputs"
 	env := zygo.NewZlisp()
 	env.StandardSetup()
 	run := func(kind, opname, opsym string, x, y val) {
@@ -146,6 +146,7 @@ func main() {
 				for _, op := range arOps {
 					run("ar", op[0], op[1], x, y)
 				}
+				run("mod", "mod", "mod", x, y)
 			}
 		}
 		out.Extra["grid_values"] = len(g)
@@ -160,7 +161,9 @@ func main() {
 			if rng.Intn(8) == 0 {
 				y = x
 			}
-			if rng.Intn(3) == 0 {
+			if rng.Intn(9) == 0 {
+				run("mod", "mod", "mod", x, y)
+			} else if rng.Intn(3) == 0 {
 				op := arOps[rng.Intn(len(arOps))]
 				run("ar", op[0], op[1], x, y)
 			} else {
